@@ -538,14 +538,22 @@ fn check(args: &[String]) -> i32 {
     let faults: BTreeMap<&String, &u64> = agg.counters.iter().filter(|(k, _)| k.starts_with("fault.")).collect();
     let probes: BTreeMap<&String, &u64> = agg.counters.iter().filter(|(k, _)| k.starts_with("probe.")).collect();
     let ops: BTreeMap<&String, &u64> = agg.counters.iter().filter(|(k, _)| !k.starts_with("probe.") && !k.starts_with("fault.")).collect();
+    // fault enumeration (C09): the unit of evaluation is one interrupted session, not one plan
+    let (evaluations, distinct) = if def.level == "fault_enumeration" {
+        (agg.counters.get("interrupted_sessions").copied().unwrap_or(agg.results), agg.counters.get("distinct_interrupted_sessions").copied().unwrap_or(agg.nontrivial_hashes.len() as u64))
+    } else {
+        (agg.results, agg.nontrivial_hashes.len() as u64)
+    };
     let evidence = json!({
         "property_id": def.id,
         "tier": tier,
         "seed": base,
         "level": def.level,
         "coverage": {
-            "evaluations": agg.results,
-            "distinct_nontrivial": agg.nontrivial_hashes.len(),
+            "evaluations": evaluations,
+            "distinct_nontrivial": distinct,
+            "plans": agg.results,
+            "exhaustive": false,
             "rule": def.rule,
             "samples": agg.samples,
             "simulated_runs": agg.results,
